@@ -13,6 +13,15 @@ import (
 // hook: a yield point of the simulation, so that state shared through
 // atomics or locks - invisible to the race monitor - is interleaved.
 func init() {
+	// never switch tasks while the running task holds a real lock
+	hooks.SetLockDepthHook(func(d int) {
+		if freeMode {
+			return
+		}
+		if e := curEnv(); e != nil {
+			e.lockDepth += d
+		}
+	})
 	hooks.SetSyncYieldHook(func() {
 		if freeMode {
 			runtime.Gosched()
